@@ -159,7 +159,7 @@ fn main() {
         push(&mut cw, &mut st, 10, v.to_bits() as i128, F6Dot10::from_f32(v).to_bits() as i128);
     }
     // ---- OtRound (ops 11..16)
-    let mut ots: Vec<f64> = vec![0.0, -0.0, 0.5, -0.5, 1.5, -1.5, 2.5, -2.5, 0.49999999999999994, -0.49999999999999994, 32767.4, 32767.5, 32768.0, -32768.5, -32769.0, 65535.4, 65535.5, 70000.0, -1.0, f64::NAN, f64::INFINITY, f64::NEG_INFINITY, 1e300, 4503599627370497.0];
+    let mut ots: Vec<f64> = vec![0.0, -0.0, 0.5, -0.5, 1.5, -1.5, 2.5, -2.5, 0.49999999999999994, -0.49999999999999994, 0.49999997019767761, -0.49999997019767761, 0.24999999999999997, 8388609.0, 8388607.5, 8388606.5, 4503599627370495.5, 32767.4, 32767.5, 32768.0, -32768.5, -32769.0, 65535.4, 65535.5, 70000.0, -1.0, f64::NAN, f64::INFINITY, f64::NEG_INFINITY, 1e300, 4503599627370497.0];
     for _ in 0..(if thorough { 300 } else { 80 }) {
         ots.push((rng.range(-70000, 70000) as f64) + [0.0, 0.25, 0.5, 0.75][rng.below(4) as usize]);
         ots.push(f64::from_bits(rng.next_u64()));
@@ -178,8 +178,33 @@ fn main() {
         push(&mut cw, &mut st, 15, w.to_bits() as i128, rf16 as i128);
         let rfu16: u16 = w.ot_round();
         push(&mut cw, &mut st, 16, w.to_bits() as i128, rfu16 as i128);
-        if v.is_finite() && v.abs() < 1e9 && r != (v + 0.5).floor() {
-            st.oracle_failure(json!({"key": format!("ot_round-f64:{:016x}", v.to_bits())}));
+        // exact half-up oracle: floor(v + 1/2) computed without the rounding of `v + 0.5`
+        // (fl = floor(v) and v - fl are exact; the answer is fl or fl + 1)
+        for (name, x, got, lim) in [("f64", v, r, 9007199254740992.0f64), ("f32", w as f64, rf as f64, 16777216.0f64)] {
+            if !x.is_finite() || x.abs() >= lim {
+                continue;
+            }
+            let fl = x.floor();
+            let frac = x - fl;
+            let exact = if frac >= 0.5 { fl + 1.0 } else { fl };
+            if got != exact {
+                let key = if x > 0.0 && x < 0.5 {
+                    format!("F-25:ot_round-{}-pred-half", name)
+                } else if frac == 0.0 && x.abs() >= lim / 2.0 {
+                    format!("F-25:ot_round-{}-odd-integer-above-2^(prec-1)", name)
+                } else {
+                    format!("ot_round-{}-not-half-up:{:016x}", name, x.to_bits())
+                };
+                st.oracle_failure(json!({"key": key, "x": x, "got": got, "exact": exact}));
+            }
+        }
+        // i16 / u16 forms saturate the same exact value
+        if v.is_finite() && v.abs() < 4.0e15 && !(v > 0.0 && v < 0.5) {
+            let fl = v.floor();
+            let exact = if v - fl >= 0.5 { fl + 1.0 } else { fl };
+            if (r16 as f64) != exact.clamp(-32768.0, 32767.0) || (ru16 as f64) != exact.clamp(0.0, 65535.0) {
+                st.oracle_failure(json!({"key": format!("ot_round-f64-int-not-half-up:{:016x}", v.to_bits())}));
+            }
         }
     }
     let shards = cw.finish();
